@@ -477,7 +477,7 @@ func isLogPkg(p *types.Package) bool {
 		return false
 	}
 	pp := p.Path()
-	return pp == "github.com/sirupsen/logrus" || pp == "github.com/dominant-strategies/go-quai/log"
+	return pp == "github.com/sirupsen/logrus" || pp == "github.com/dominant-strategies/go-quai/log" || strings.HasPrefix(pp, "github.com/prometheus/")
 }
 
 func zeroResults(sig *types.Signature) value {
